@@ -1,10 +1,10 @@
 SPECIFICATION MCSpec
 CONSTANTS
   ARD = 6
-  MaxA = 4
-  MaxB = 3
-  MaxBlocks = 7
-  UseRoles = {1, 2, 4}
+  MaxA = 3
+  MaxB = 2
+  MaxBlocks = 5
+  UseRoles = {1, 4}
   MinH2 = 3
   MinH3 = 2
   FundingRole = FALSE
